@@ -192,4 +192,38 @@ PROPERTIES = {
             part("C18.execute", target=("test", "twins"), shards={"quick": 8, "thorough": 16}, floor=10),
         ],
     },
+    "C01": {
+        "level": "exploration",
+        "level_text": "commit monitor over executions of real replica stacks in a virtual-time simulator with hostile schedules, partitions, twins and scripted Byzantine actors (<= f): "
+                      "every CommitEvent is checked online for chain linkage and all honest ledgers pairwise for the prefix relation after every step",
+        "level_note": "simulated network applies the server's transport-identity rule; vote verification is synchronous; <= f faulty replicas; cryptographic hardness assumed",
+        "technique": "runtime monitor (commit-history oracle) over randomized hostile executions of the real stacks",
+        "rule": "C01: ledger agreement",
+        "parts": [part("C01.sim", shards={"quick": 16, "thorough": 16}, floor=100, timeout={"quick": 900, "thorough": 14400})],
+    },
+    "C03": {
+        "level": "exploration",
+        "level_text": "vote monitor: offline pass over the ground-truth sign log of every honest key after every step of the same hostile executions",
+        "level_note": "leader of a view = what the node's own rotation answered; scripted/fixed/round-robin rotations only",
+        "technique": "runtime monitor (sign-log history oracle) over randomized hostile executions of the real stacks",
+        "rule": "C03: voting discipline",
+        "parts": [part("C03.sim", shards={"quick": 16, "thorough": 16}, floor=100, timeout={"quick": 900, "thorough": 14400})],
+    },
+    "C07": {
+        "level": "exploration",
+        "level_text": "pacemaker monitor polled after every handled message: monotonicity, one ViewChangeEvent per view, and necessity of ground-truth quorum evidence for every view left",
+        "level_note": "evidence oracle is a necessary condition computed from the sign log (cannot false-alarm); certificate validity judged by the ground-truth oracle",
+        "technique": "runtime monitor (state polling + sign-log evidence oracle) over randomized hostile executions",
+        "rule": "C07: pacemaker",
+        "parts": [part("C07.sim", shards={"quick": 16, "thorough": 16}, floor=100, timeout={"quick": 900, "thorough": 14400})],
+    },
+    "C06": {
+        "level": "exploration",
+        "level_text": "execution/client monitor over hostile executions in which every command enters through a real ClientIO.ExecCommand call: outcome history per (replica, command), "
+                      "ExecuteEvent/AbortEvent dispatch order, committed chain, command count and application digest are cross-checked per replica and between replicas",
+        "level_note": "client goroutines make these executions non-deterministic in command placement; a logical barrier on ClientIO's waiter table precedes every look at the outcome list",
+        "technique": "runtime monitor (client-boundary outcome history + event history) over randomized hostile executions",
+        "rule": "C06: exactly-once execution",
+        "parts": [part("C06.sim", shards={"quick": 16, "thorough": 16}, floor=50, timeout={"quick": 900, "thorough": 14400})],
+    },
 }
